@@ -268,8 +268,14 @@ def run(index, rep, tier):
         loops = [l for l in walk_no_nested(f.node) if isinstance(l, ast.For)]
         ok = len(loops) == 1 and norm(loops[0].iter) in ("self.seed_node.leaf_iter()", "self.leaf_node_iter()", "self.seed_node.leaf_nodes()")
         incs = [n for n in walk_no_nested(f.node) if isinstance(n, ast.AugAssign) and const_value(n.value) == 1]
-        direct = [n for n in walk_no_nested(f.node) if isinstance(n, ast.Return) and "leaf" in norm(n.value)]
+        direct = [n for n in walk_no_nested(f.node) if isinstance(n, ast.Return) and n.value is not None and any(k in norm(n.value) for k in ("leaf_iter(", "leaf_nodes(", "leaf_node_iter("))]
         rep.check((ok and len(incs) == 1) or bool(direct), "R15.4", f.qualname, "counts leaves", fn_where(f), "len(tree) counts seed_node.leaf_iter()", "Tree.__len__ no longer counts the leaves of the tree")
+        # every value returned is that count: no shortcut through cached data (a stored encoding is not kept current by structural edits)
+        rets = [r for r in walk_no_nested(f.node) if isinstance(r, ast.Return) and r.value is not None]
+        counter = {norm(n.target) for n in incs}
+        badr = [r for r in rets if not ((isinstance(r.value, ast.Name) and r.value.id in counter) or any(k in norm(r.value) for k in ("leaf_iter(", "leaf_nodes(", "leaf_node_iter(")))]
+        rep.check(not badr, "R15.4", f.qualname, "len(tree) returned from something other than the leaf count: %s" % (norm(badr[0].value)[:50] if badr else ""), fn_where(f, badr[0] if badr else None), "every return of Tree.__len__ is the leaf count",
+                  "Tree.__len__ can return `%s`, which is not a count of the current leaves: cached bipartition data are only as current as the last encode, so after a structural edit (pruning, adding a child, re-seeding without update) len(tree) no longer is the number of leaves" % (norm(badr[0].value)[:70] if badr else ""))
 
     # ---- R15.7
     with rep.section("R15.7"):
@@ -350,5 +356,23 @@ def run(index, rep, tier):
                 from_step = cfg.reach(cfg.succ_after(sn[0]), follow_exc=False, edge_ok=eo) if sn else []
                 if not sn or any(x is sn[0] for x in from_entry) or any(x is sn[0] for x in from_step):
                     bounded = False
+            # the three callbacks are independent: the climb that fires after_fn runs whether or not leaf_fn / before_fn were given
+            cbs = [p_ for p_ in f.params if p_.endswith("_fn")]
+            for cb in cbs:
+                tests = {t.id for t in cfg.nodes if t.kind == "test" and names_in(t.ast) == {cb}}
+                if not tests:
+                    continue
+                def absent(s_, lab, d_, tests=tests):
+                    if s_.id not in tests:
+                        return True
+                    cp_ = compare_parts(s_.ast)
+                    truthy_edge = "t" if (cp_ is None or cp_[1] == "IsNot") else "f"      # `cb` / `cb is not None` true  <=>  callback given
+                    return lab != truthy_edge
+                reach = cfg.reach([cfg.entry], follow_exc=False, edge_ok=absent)
+                for st in steps:
+                    sn_ = stmt_nodes(cfg, st)
+                    okc = bool(sn_) and any(x is sn_[0] for x in reach)
+                    rep.check(okc, "R15.5", f.qualname, "climb not reached when %s is not given" % cb, fn_where(f, st), "the climb that closes finished subtrees runs also without %s" % cb,
+                              "Node.apply reaches the upward climb (which fires after_fn for every finished internal node) only when `%s` was given: called with after_fn but without %s it never closes a bracket" % (cb, cb))
             rep.check(bounded, "R15.5", f.qualname, "climb `%s` not bounded by the start node" % norm(l.test)[:70], fn_where(f, l), "the upward climb in Node.apply stops at the start node",
                       "Node.apply climbs towards the root with `while %s` and never compares with the start node `self`: started on a subtree whose root is the last child of its parent, it calls after_fn on ancestors that never received before_fn (bracket mismatch)" % norm(l.test)[:90])
